@@ -38,7 +38,7 @@ def model_check(w, tier):
 
 
 def run_loads(w, vh, tier, fams, sd):
-    n = 250 if tier == "quick" else 6000
+    n = 250 if tier == "quick" else 15000
     nproc = 8 if tier == "quick" else 16
     d = w.sub("loads")
     events = []
